@@ -146,3 +146,32 @@ def judge(pid, scenarios, owned, nontrivial, tlc_mod, cfg=None, module='FBTrace.
         else:
             out.others.append({'scenario': t['id'], 'clause': clause, 'at': v['at']})
     return out
+
+
+def judge_traces(pid, traces, owned, tlc_mod, procs=16):
+    """Validate already recorded traces (no scenario to re-run): rejections owned by the property are
+    violations; the replay file holds the recorded trace."""
+    out = Outcome()
+    out.total = len(traces)
+    if not traces:
+        return out
+    verdicts, st = tlc_mod.validate(traces, jobs=procs, open_kf=open_kf_names())
+    for k in ('states', 'distinct', 'jvms'):
+        out.stats[k] += st.get(k, 0)
+    for t in traces:
+        v = verdicts[t['id']]
+        for k in v.get('kf', []):
+            out.known.append((k, t['id']))
+        if v['verdict'] == 'accepted':
+            out.accepted += 1
+            out.nontrivial.add(scenario_digest(t))
+            continue
+        clause = v['clause']
+        out.clause_hist[clause] = out.clause_hist.get(clause, 0) + 1
+        if clause.startswith('H:'):
+            out.machinery.append((t['id'], 'harness clause %s at event %d' % (clause, v['at'])))
+        elif clause in owned or (set(v.get('also', [])) & owned):
+            out.violations.append(({'id': t['id'], 'recorded': True, 'steps': []}, t, v))
+        else:
+            out.others.append({'scenario': t['id'], 'clause': clause, 'at': v['at']})
+    return out
